@@ -128,6 +128,8 @@ def main(tier, seed):
                 tooltier.decorate(prog, rng, p_item=0.2)
             if i % 5 == 2:
                 tooltier.add_zst_error(prog, rng)
+            if i % 3 == 0:
+                tooltier.add_special_methods(prog, rng, b)
             emit_rust.assign_abi_names(prog)
             d = toolrun.fresh_dir(toolrun.workdir("c09", "p%d_%s" % (i, b)))
             src, cfg = tooltier.write_program(prog, d, "")
